@@ -166,6 +166,8 @@ def run(rep, tier, seed, model_ok=True, effort=1):
             # git strips trailing whitespace of messages
             if got_c.strip() != exp_c.strip() or got_t.strip() != exp_t.strip():
                 rep.violation("commit/tag object differs from the given message", input=dict(commit_message=cmsg, tag_message=tmsg, got=(got_c, got_t)), **{"class": "message-altered"})
+    from . import libcorr
+    libcorr.shlex_stream(rep, common.rng(seed, "c12-shlex"), (300 if tier == "quick" else 5000) * effort, model_ok=model_ok)
     if model_ok:
         bad, errs = common.coq_eval("c12argv", HDR, "list N * list N * list (list N * list N) * option (list (list N))",
                                     "fun '(n, c, kw, e) => match vcs_cmd n c kw, e with Some a, Some b => eqb_lstr a b | None, None => true | _, _ => false end", items, shard=300)
